@@ -21,7 +21,13 @@ import (
 type aofStorer interface {
 	hasWriter(left int64) bool
 	lastSeg() int64
+	hasSeg(left int64) bool
 }
+
+// errOrphaned : the reader followed into a segment that left the index while it was
+// being opened (an empty live segment trimmed when its writer closed, a reset): no
+// index entry holds the reader, so nothing would ever close it. It fails instead.
+var errOrphaned = errors.New("aof segment is no longer indexed")
 
 type AofRotateReader struct {
 	writer    io.WriteCloser
@@ -246,6 +252,9 @@ func (r *AofRotateReader) tryReadNextFile(offset int64) error {
 		}
 		(*r.observer.Load()).Close(oldLeft)
 	}
+	if err == nil && !r.aof.hasSeg(r.left) {
+		return errOrphaned
+	}
 	return err
 }
 
@@ -287,7 +296,9 @@ func (r *AofRotateReader) read(buf []byte) (n int, err error) {
 	for err == io.EOF && !r.wait.IsClosed() {
 		// new aof?
 		if r.left != r.aof.lastSeg() {
-			r.tryReadNextFile(r.right)
+			if terr := r.tryReadNextFile(r.right); terr == errOrphaned {
+				return 0, terr
+			}
 		}
 		time.Sleep(time.Millisecond * 10)
 		n, err = r.file.Read(buf)
